@@ -58,6 +58,8 @@ def run(P, C, tier):
         uses_conn = any(b.root_type(a).endswith("rusqlite::Connection") and a[0] != "field" for a in args)
         if not uses_conn:
             continue
+        if re.search(r"Connection::(is_autocommit|changes|last_insert_rowid|total_changes)$", name):
+            continue        # pure state queries of the connection: neither a write nor fallible
         if name.endswith("Connection::execute"):
             txt = exec_text(b, bi)
             if txt == "BEGIN TRANSACTION" or txt == "BEGIN":
@@ -114,6 +116,54 @@ def run(P, C, tier):
                  "error edge: no further write=%s, no COMMIT=%s, ROLLBACK on every path=%s, returns Err=%s" % (not other_writes, not reaches_commit, rb, returns_err))
     C.floor("R1", "connection-using calls inside the transaction", len(writes), 13)
     C.floor("R2", "ROLLBACK sites", len(rollbacks), 12)
+    # R10: no return leaves the writer's connection inside the transaction
+    C.rule("R10", "the single read-write connection is never left inside an open transaction: after BEGIN succeeded every path to a return passes COMMIT or ROLLBACK "
+                  "(an early `?` exit keeps the transaction open; the next batch's BEGIN then fails with `cannot start a transaction within a transaction` and no "
+                  "write of the instance ever succeeds again); only the failure of ROLLBACK itself is excused")
+    be = mir.result_edges(b, begin)
+    if be is None:
+        C.ob("R10", "transaction-closed-on-every-return", False, b.loc(begin), "the result of BEGIN is not tested")
+    else:
+        rb_err = set()
+        for r_ in rollbacks:
+            re_r = mir.result_edges(b, r_)
+            if re_r is not None and re_r.get("err") is not None:
+                rb_err.add((re_r["switch"], re_r["err"]))
+        closers = set(rollbacks)
+        # `conn.is_autocommit() == true` states that no transaction is active (SQLite rolled it back itself): that edge closes too
+        from rules import rights as _rights
+        for sb in b.live_blocks():
+            tt = b.blocks[sb]["t"]
+            if tt["k"] != "switch":
+                continue
+            term = b.switch_term(sb, expand_vars=True)
+            if term[0] == "discr":
+                continue
+            for tg, vals in _rights.switch_edges(b, sb):
+                atom, truth = mir.cond_atoms(term, vals)
+                if atom[0] == "call" and atom[1].endswith("Connection::is_autocommit") and truth is True:
+                    rb_err.add((sb, tg))
+        ce0 = mir.result_edges(b, commit)
+        ok_commit_edge = set()
+        # COMMIT closes the transaction only when it succeeds: its error edge still needs a ROLLBACK
+        reach = b.reachable(be["ok"], avoid_blocks=closers | {commit}, avoid_edges=rb_err)
+        open_exits = sorted(x for x in b.exits() if x in reach)
+        # paths through a failed COMMIT
+        leak_commit = False
+        if ce0 is not None and ce0.get("err") is not None:
+            r2 = b.reachable(ce0["err"], avoid_blocks=closers, avoid_edges=rb_err)
+            leak_commit = any(x in r2 for x in b.exits())
+        # which call's error edge leaks (for the report)
+        leaks = []
+        for bi, t in writes + [(commit, b.blocks[commit]["t"])]:
+            re_ = mir.result_edges(b, bi)
+            if re_ is None or re_.get("err") is None:
+                continue
+            r3 = b.reachable(re_["err"], avoid_blocks=closers, avoid_edges=rb_err)
+            if any(x in r3 for x in b.exits()):
+                leaks.append("%s at %s" % (mir.short(callee_name(t)) if bi != commit else "COMMIT", b.loc(bi)))
+        C.ob("R10", "transaction-closed-on-every-return", not open_exits and not leak_commit, b.loc(begin),
+             "returns reachable from BEGIN without COMMIT/ROLLBACK: %s" % (leaks or "none"))
     # R3
     C.ob("R3", "marks-exist", len(marks) == 1, b.loc(), "exactly one DailyMutations::write(conn) call", nontrivial=False)
     for m in marks:
